@@ -236,6 +236,69 @@ func runRoar(c roarCase, r *pb.Rec) error {
 					return fmt.Errorf("step %d: %s enumerated %d members, want %d of %d", step, name, n, exp, len(want))
 				}
 			}
+			// several enumerations of the unmodified set may be alive at the same time: a second iterator started
+			// while the first is under way, both advanced alternately; and an enumeration from inside a Range callback
+			{
+				a, b := bm.Iter(), bm.Iter()
+				lag := 0
+				if o.Stop > 0 {
+					lag = o.Stop % (len(want) + 1)
+				}
+				ia, ib := 0, 0
+				for ; ia < lag; ia++ {
+					if !a.Next() || a.Value() != want[ia] {
+						return fmt.Errorf("step %d: first of two live iterators: position %d wrong", step, ia)
+					}
+				}
+				b = bm.Iter()
+				for ia < len(want) || ib < len(want) {
+					if ia < len(want) {
+						if !a.Next() || a.Value() != want[ia] {
+							return fmt.Errorf("step %d: two live iterators (second started after %d steps of the first): first iterator at position %d yields %v, want %#x", step, lag, ia, a.Value(), want[ia])
+						}
+						ia++
+					}
+					if ib < len(want) {
+						if !b.Next() || b.Value() != want[ib] {
+							return fmt.Errorf("step %d: two live iterators (second started after %d steps of the first): second iterator at position %d yields %v, want %#x", step, lag, ib, b.Value(), want[ib])
+						}
+						ib++
+					}
+				}
+				if a.Next() || b.Next() {
+					return fmt.Errorf("step %d: two live iterators: Next true after exhaustion", step)
+				}
+				if len(want) <= 300 {
+					outer := 0
+					var bad error
+					bm.Range(func(v uint32) bool {
+						if outer >= len(want) || v != want[outer] {
+							bad = fmt.Errorf("Range with an enumeration inside its callback: position %d = %#x, want %v", outer, v, at(want, outer))
+							return false
+						}
+						outer++
+						in, k := bm.Iter(), 0
+						for in.Next() {
+							if k >= len(want) || in.Value() != want[k] {
+								bad = fmt.Errorf("Iter inside a Range callback: position %d = %#x, want %v", k, in.Value(), at(want, k))
+								return false
+							}
+							k++
+						}
+						if k != len(want) {
+							bad = fmt.Errorf("Iter inside a Range callback enumerated %d of %d members", k, len(want))
+						}
+						return bad == nil
+					})
+					if bad == nil && outer != len(want) {
+						bad = fmt.Errorf("Range with an enumeration inside its callback enumerated %d of %d members", outer, len(want))
+					}
+					if bad != nil {
+						return fmt.Errorf("step %d: %v", step, bad)
+					}
+				}
+				r.ClassIf(len(want) > 1, "two enumerations alive at once")
+			}
 			// the sequence value returned by All() is reusable: ranging it again (also after an early break)
 			// enumerates the whole set again
 			seq := bm.All()
@@ -294,7 +357,7 @@ func at(s []uint32, i int) any {
 
 func init() {
 	pb.Register("roaring_set", pb.Options{Base: 500,
-		Required: []string{"dense bucket", "sparse+dense mixed", "bucket emptied", "remove from dense", "bucket crossed 4096", ">= 2 buckets enumerated", "bucket re-added after being emptied", "dense bucket emptied"},
+		Required: []string{"dense bucket", "sparse+dense mixed", "bucket emptied", "remove from dense", "bucket crossed 4096", ">= 2 buckets enumerated", "two enumerations alive at once", "bucket re-added after being emptied", "dense bucket emptied"},
 		Rule:     "zero-value bitmap, 1-5 (thorough 8) bucket keys biased to 0/1/0x7fff/0xffff, <= 40 rules: single Add/Remove/Contains and bulk rules (addRun/removeRun with strides incl. descending, removeBucket, fillTo 4094..4098/5000) expanded into individually checked calls, enumerations by Iter, Range and All (early stop); oracle: map model, Len after every rule, each enumeration equals the full sorted member list; non-trivial = enumeration over >= 2 non-empty buckets after a bucket crossed the 4096 threshold or was emptied and re-added"},
 		genRoar, runRoar)
 }
